@@ -51,6 +51,22 @@ def sym_authority(ctx: Ctx, tag="", maxlen=6, upper=False):
     ctx.sn_registry[inner.get_id()] = snv
     ctx.sn_registry[host.get_id()] = z3.And(z3.Not(bracketed), snv)
     ctx.lazy_defs.append(snv == valid_server_name_def(inner))
+    # abstract ASCII lower-casing of the host (definition lazy, congruence eager)
+    from models import lower
+    lo = z3.String("hostname_lower" + tag)
+    if not hasattr(ctx, "lower_list"):
+        ctx.lower_list = []
+    for (i2, l2) in ctx.lower_list:
+        ctx.assume(z3.Implies(inner == i2, lo == l2))
+    ctx.lower_list.append((inner, lo))
+    if not hasattr(ctx, "lower_registry"):
+        ctx.lower_registry = {}
+    ctx.lower_registry[inner.get_id()] = lo
+    ctx.lower_registry[host.get_id()] = z3.If(bracketed, z3.Concat(z3.StringVal("["), lo, z3.StringVal("]")), lo)
+    ctx.lazy_defs.append(lo == lower(inner, maxlen))
+    a = AuthorityV(host, has_port, port, inner=inner, bracketed=bracketed)
+    a.lower_inner = lo
+    return a
     return AuthorityV(host, has_port, port, inner=inner, bracketed=bracketed)
 
 
